@@ -92,6 +92,7 @@ openf('C13', 'kf_resend_at_full_quota_disconnected', 'a client that repeats (DUP
 fixed('C13', 'ef0c317', 'the Topic Alias property added by writeLoop after the size check pushed a PUBLISH of exactly the allowed size 3-4 bytes over the client Maximum Packet Size (follow-up 3ae2a13 counts subscription identifiers)', 'corpus/C13/fixed.sx')
 openf('C14', 'kf_connack3_carries_v5_code', 'a 3.1/3.1.1 CONNECT refused by an auth hook with an MQTT 5 reason code (>= 0x80) is answered with return code 0x87, which is no 3.x return code (sendErrConnack assigns codes.NotAuthorized instead of codes.V3NotAuthorized); still a failing CONNACK; the pinned TestClient_connectWithTimeOut_BasicAuth asserts 0x87, so it cannot be repaired without editing it', 'corpus/C14/kf.sx')
 fixed('C11', '8c233d3', 'shared subscriptions with a leading wildcard ($share/g/#, $share/g/+/..) matched topic names beginning with $: MQTT-4.7.2-1 was applied to the non-shared tries only (was kf_shared_filter_matches_dollar_topic under C07, C08, C11)', 'corpus/C11/fixed_dollar.sx, corpus/C07/fixed.sx, corpus/C08/fixed.sx')
+openf('C13', 'kf_unknown_pubrel_refunds_quota', 'the PUBCOMP answering a PUBREL gives a unit of the Receive Maximum quota back even when that packet id was not open (writeLoop calls addServerQuota for every PUBCOMP; the unack store cannot tell whether Remove removed anything), so a client that sends PUBREL for unknown ids can hold more than Receive Maximum QoS 2 publishes without being disconnected with 0x93 (Coq: C13_quota_exact_refuted_by_unknown_pubrel)', 'corpus/C13/kf.sx (kf_unknown_pubrel)')
 C06 = {
     'kf_alloc_upfront': 'Unpack allocates the declared Remaining Length before reading (5 bytes of input make the broker allocate up to 256 MiB)',
     'kf_varint_noncanonical': 'non-minimal Remaining Length / Property Length / Subscription Identifier encodings are accepted; TotalBytes then differs from the bytes read (c08000)',
